@@ -73,6 +73,14 @@ def gen_case(rng, adversarial=False):
         'justify': pick(JUSTIFY), 'align_items': pick(ALIGN_ITEMS), 'align_content': pick(ALIGN_CONTENT),
         'items': [gen_item(rng, i, rich) for i in range(n)],
     }
+    if not adversarial and rng.random() < 0.03:
+        # a chain of main-axis minimums in a column container: 9.7.5.d freezes them pass after pass
+        n = pick([3, 4, 5])
+        mins = sorted(rng.sample([20, 30, 40, 60, 80, 120, 160], n - 1), reverse=True) + [None]
+        case.update({'dir': pick(['column', 'column-reverse']), 'wrap': 'nowrap', 'height': pick([200, 300]),
+                     'items': [gen_item(rng, i, False) for i in range(n)]})
+        for it, mn in zip(case['items'], mins):
+            it.update({'grow': 1, 'shrink': 1, 'basis': 0, 'height': None, 'minh': mn})
     if adversarial:
         for it in case['items']:
             r = rng.random()
@@ -126,10 +134,11 @@ def px(v):
     return 'auto' if v is None else f'{css_num(v)}px'
 
 
-def item_css(it):
+def item_css(it, shorthand=False):
     basis = it['basis'] if isinstance(it['basis'], str) else px(it['basis'])
-    css = [f'order:{it["order"]}', f'flex-grow:{css_num(it["grow"])}', f'flex-shrink:{css_num(it["shrink"])}',
-           f'flex-basis:{basis}', f'width:{px(it["width"])}', f'height:{px(it["height"])}',
+    flex = ([f'flex:{css_num(it["grow"])} {css_num(it["shrink"])} {basis}'] if shorthand else
+            [f'flex-grow:{css_num(it["grow"])}', f'flex-shrink:{css_num(it["shrink"])}', f'flex-basis:{basis}'])
+    css = [f'order:{it["order"]}', *flex, f'width:{px(it["width"])}', f'height:{px(it["height"])}',
            f'margin:{px(it["mt"])} {px(it["mr"])} {px(it["mb"])} {px(it["ml"])}',
            f'padding:{px(it["pt"])} {px(it["pr"])} {px(it["pb"])} {px(it["pl"])}',
            f'border-width:{px(it["bt"])} {px(it["br"])} {px(it["bb"])} {px(it["bl"])}',
@@ -145,12 +154,17 @@ def item_css(it):
     return ';'.join(css)
 
 
-def html_of(case):
-    cont = (f'display:flex;flex-direction:{case["dir"]};flex-wrap:{case["wrap"]};width:{px(case["width"])};'
-            f'height:{px(case["height"])};column-gap:{px(case["colgap"])};row-gap:{px(case["rowgap"])};'
-            f'justify-content:{case["justify"]};align-items:{case["align_items"]};'
+def html_of(case, shorthand=False):
+    """`shorthand`: the same computed values written with `flex`, `flex-flow` and `gap`."""
+    if shorthand:
+        head = (f'display:flex;flex-flow:{case["dir"]} {case["wrap"]};width:{px(case["width"])};'
+                f'height:{px(case["height"])};gap:{px(case["rowgap"])} {px(case["colgap"])};')
+    else:
+        head = (f'display:flex;flex-direction:{case["dir"]};flex-wrap:{case["wrap"]};width:{px(case["width"])};'
+                f'height:{px(case["height"])};column-gap:{px(case["colgap"])};row-gap:{px(case["rowgap"])};')
+    cont = (head + f'justify-content:{case["justify"]};align-items:{case["align_items"]};'
             f'align-content:{case["align_content"]}')
-    items = ''.join(f'<div id="i{it["id"]}" style="{item_css(it)}"></div>' for it in case['items'])
+    items = ''.join(f'<div id="i{it["id"]}" style="{item_css(it, shorthand)}"></div>' for it in case['items'])
     return ('<style>@page{size:6000px 20000px;margin:0}html,body{margin:0;padding:0}'
             '#c>div{border:0 solid black}</style>'
             f'<div id="c" style="{cont}">{items}</div>')
@@ -181,10 +195,10 @@ def canon(height, rects):
                     ['(' + ' '.join(sx.atom(v) for v in r) + ')' for r in rects])
 
 
-def impl_out(case):
+def impl_out(case, shorthand=False):
     """Render and canonicalise; exceptions become `err:<Class>`."""
     def go():
-        document = docs.render(html_of(case))
+        document = docs.render(html_of(case, shorthand))
         if len(document.pages) != 1:
             return f'pages={len(document.pages)}'
         cont, rects = extract(document)
